@@ -44,8 +44,14 @@ pub trait RawOp: Clone + Send + Sync + 'static {
     type In: Clone + Send + Sync + std::fmt::Debug;
     type Chip: FromScratch<F>;
 
-    /// stable name used in signatures (no lengths, no contents)
+    /// stable name used in signatures (no lengths, no sizes, no contents)
     fn name(&self) -> String;
+    /// public API the case goes through (signature suffix after '@')
+    fn api(&self) -> String;
+    /// key of the per-gadget statistics (may carry MAX)
+    fn label(&self) -> String {
+        self.name()
+    }
     /// everything the circuit structure depends on (k is cached per shape)
     fn shape(&self) -> String;
     /// self-contained description of the case for witnesses
@@ -146,6 +152,9 @@ impl SoundStats {
 /// Picks `n` of the output positions: first, last, then seeded random ones.
 fn pick_positions(n_in: usize, len: usize, n: usize, rng: &mut ChaCha8Rng) -> Vec<usize> {
     let all: Vec<usize> = (n_in..len).collect();
+    if n == 0 {
+        return vec![];
+    }
     if all.len() <= n {
         return all;
     }
@@ -315,12 +324,14 @@ pub fn check_raw<O: RawOp>(cases: &[(O, O::In)], opts: &SoundOpts, rng: &mut Cha
     let prop = opts.property.clone();
     for (op, input) in cases {
         let name = op.name();
+        let api = op.api();
+        let label = op.label();
         let desc = op.describe(input);
         let k = match k_of(op) {
             Ok(k) => k,
             Err(e) => {
                 rep.violation(
-                    &format!("{prop}/{name}/panic-on-unknown-witness"),
+                    &format!("{prop}/{name}/panic-on-unknown-witness@{api}"),
                     &format!("synthesising the hash circuit with an unknown witness fails: {e}"),
                     json!({"case": desc}),
                 );
@@ -347,14 +358,14 @@ pub fn check_raw<O: RawOp>(cases: &[(O, O::In)], opts: &SoundOpts, rng: &mut Cha
                 continue;
             }
             Ok(Err(e)) => {
-                rep.violation(&format!("{prop}/{name}/synthesis-error-on-admissible-input"), &format!("synthesis fails on an admissible input: {e}"), json!({"case": desc}));
+                rep.violation(&format!("{prop}/{name}/synthesis-error-on-admissible-input@{api}"), &format!("synthesis fails on an admissible input: {e}"), json!({"case": desc}));
                 continue;
             }
             Ok(Ok(t)) => t,
         };
         if bound_len(&tables, 1) != exp.len() {
             rep.violation(
-                &format!("{prop}/{name}/public-input-count"),
+                &format!("{prop}/{name}/public-input-count@{api}"),
                 &format!("the circuit binds {} raw public inputs, the reference encoding has {}", bound_len(&tables, 1), exp.len()),
                 json!({"case": desc}),
             );
@@ -367,12 +378,12 @@ pub fn check_raw<O: RawOp>(cases: &[(O, O::In)], opts: &SoundOpts, rng: &mut Cha
                            "failures": format!("{fails:?}")});
             if sat_with_bound {
                 rep.violation(
-                    &format!("{prop}/{name}/digest-differs-from-reference"),
+                    &format!("{prop}/{name}/digest-differs-from-reference@{api}"),
                     "the circuit is satisfied by the honest witness only with a digest different from the reference function on the actual message",
                     w,
                 );
             } else {
-                rep.violation(&format!("{prop}/{name}/rejects-honest"), "honest run is unsatisfied even with the instance the circuit binds itself", w);
+                rep.violation(&format!("{prop}/{name}/rejects-honest@{api}"), "honest run is unsatisfied even with the instance the circuit binds itself", w);
             }
             continue;
         }
@@ -380,7 +391,7 @@ pub fn check_raw<O: RawOp>(cases: &[(O, O::In)], opts: &SoundOpts, rng: &mut Cha
             Ok(true) => {}
             other => {
                 rep.violation(
-                    &format!("{prop}/{name}/mock-rejects-honest"),
+                    &format!("{prop}/{name}/mock-rejects-honest@{api}"),
                     &format!("MockProver rejects the honest run the reference evaluator accepts: {other:?}"),
                     json!({"case": desc, "k": k}),
                 );
@@ -388,9 +399,9 @@ pub fn check_raw<O: RawOp>(cases: &[(O, O::In)], opts: &SoundOpts, rng: &mut Cha
             }
         }
         rep.nontrivial(&(name.clone(), fnv(desc.to_string().as_bytes())));
-        rep.count(&format!("{name}.honest_accepted"));
+        rep.count(&format!("{label}.honest_accepted"));
         if rep.samples.len() < rep.max_samples {
-            rep.sample(json!({"op": name, "k": k, "case": desc, "assigned_advice_cells": tables.assigned_advice_cells().len()}));
+            rep.sample(json!({"op": label, "k": k, "case": desc, "assigned_advice_cells": tables.assigned_advice_cells().len()}));
         }
         soundness_stage(&name, &desc, k, &circuit, &mut tables, &exp, n_in, opts, rng, rep, &mut st);
     }
